@@ -178,3 +178,5 @@ def check(model, rep, tier):
         if f is not None:
             ncen += rotation_centre_obligations(model, rep, f, "2 frames")
     rep.floor("A.centre", 2, "(affine_matrix and the template bank rotate about (n-1)/2)")
+    from .generic import axis_convention_obligations
+    axis_convention_obligations(model, rep, ["acryo/backend/_upsample.py", "acryo/backend/_zncc.py", "acryo/backend/_pcc.py", "acryo/backend/_fsc.py", "acryo/backend/_mesh.py"], "2 frames", floor=3)
